@@ -13,13 +13,18 @@ n       number of consecutive selections (1..64)
 v       request variant (used by the harness only to build the HTTP request)
 rand    `-` or `<seed>:<d,d,…>` raw Int63 draws of math/rand after Seed(seed)
 
-  prx <dyn|sta> <policy> <m> <ids> <script> <rand>
-        the proxy loop around Select: one reverse_proxy handler with the addresses <ids> (`-` or ids joined
-        by `,`, pairwise different) as static upstreams (`sta`) or handed out afresh for every request by a
-        dynamic upstream source (`dyn`), unhealthy_request_count <m> (0 = none), policy one of first,
-        rr:<c>, lc, rnd, rc:<k>; script = events joined by `,`: `h` a request arrives and is held in flight
-        at the backend, `q` a request arrives and completes, `f<k>` the k-th held request (0-based) completes.
-        answer `<o>,<o>,… c=<counter|-> n=<in-flight per address|->`, o = address index | `503` | `ok` | `-`
+  prx <dyn|sta> <policy|-> <m>:<fd>:<mf>:<r> <ups> <script> <rand>
+        the proxy loop around Select: one reverse_proxy handler whose upstreams are static (`sta`) or handed
+        out afresh for every loop iteration by a dynamic upstream source (`dyn`); policy one of first,
+        rr:<c>, lc, rnd, rc:<k>, or `-` = none configured (default); passive health checks:
+        unhealthy_request_count <m> (0 = none), fail_duration set <fd> (0/1), max_fails <mf> (0 = default);
+        lb_retries <r> (0-8). ups = `-` or `id:max:bad` joined by `,` (ids pairwise different): the upstream's
+        own max_requests (0 = none) and what its backend does: `o` answers, `d` dial error, `e` other error.
+        script = events joined by `,`: `h`/`H` a GET/POST request arrives and, once proxied, is held in flight
+        at the backend, `q`/`Q` a GET/POST request arrives and completes, `f<k>` the k-th held request
+        (0-based) completes. answer `<o>,<o>,… c=<counter|-> n=<in flight per address|-> f=<fails per address|->`,
+        o for a request = failed attempts `<i>!` / `-` (Select returned nil) and the end `<i>` | `503` | `502`,
+        joined by `/`; o for `f<k>` = `ok` | `-`
 
 answer  `<r>,<r>,… c=<counter|-> a=<availability bits|->`, r = `nil` | `<i>` | `<i>+ck<id>` | `panic:idx` | `panic:nil`;
         `err:provision` if the policy is rejected; `starved` if the draws run out; `bad-op` if malformed.
@@ -155,19 +160,20 @@ def answer (p : Policy) (pool : Pool) (n : Nat) (ds : List Nat) : String :=
     else ",".intercalate ((run n p pool ds).1.map showRes) ++ " c=" ++ counterOf (run n p pool ds).2
       ++ " a=" ++ availBits pool
 
-/-- `h` | `q` | `f<k>` -/
+/-- `h` `q` (GET, held / completing) | `H` `Q` (POST) | `f<k>` -/
 def parseEv (s : String) : Option Ev :=
   match s.toList with
-  | ['h'] => some .hold
-  | ['q'] => some .quick
+  | ['h'] => some (.arrive true true)
+  | ['q'] => some (.arrive false true)
+  | ['H'] => some (.arrive true false)
+  | ['Q'] => some (.arrive false false)
   | 'f' :: ks => (num 64 (String.ofList ks)).map .fin
   | _ => none
 
-/-- every `f<k>` refers to a `hold` that has happened -/
+/-- every `f<k>` refers to a held request that has arrived -/
 def scriptOK : List Ev → Nat → Bool
   | [], _ => true
-  | .hold :: es, n => scriptOK es (n + 1)
-  | .quick :: es, n => scriptOK es n
+  | .arrive hold _ :: es, n => scriptOK es (if hold then n + 1 else n)
   | .fin k :: es, n => decide (k < n) && scriptOK es n
 
 /-- the policies the proxy-loop cases use (no hash, cookie or weighted policies) -/
@@ -179,31 +185,79 @@ def proxyPolicy : Policy → Bool
   | .randomChoose _ => true
   | _ => false
 
-def showEvOut : EvOut → String
+/-- `-` = no selection policy configured (`Provision` defaults to random) -/
+def parseProxyPolicy (s : String) : Option Policy :=
+  if s == "-" then some .random else
+  match parseLeaf s with
+  | some p => if proxyPolicy p then some p else none
+  | none => none
+
+def parsePUp (s : String) : Option PUp :=
+  match s.splitOn ":" with
+  | [id, mx, bad] => do
+    let id ← num small id
+    let mx ← num 1000 mx
+    let b ← (if bad == "o" then some 0 else if bad == "d" then some 1 else if bad == "e" then some 2 else none)
+    pure ⟨id, mx, b⟩
+  | _ => none
+
+def parsePUps (s : String) : Option (List PUp) :=
+  if s == "-" then some [] else (s.splitOn ",").mapM parsePUp
+
+/-- `<unhealthy_request_count>:<fail_duration 0|1>:<max_fails>:<lb_retries>` -/
+def parsePCfg (dyn : Bool) (s : String) (ups : List PUp) : Option PCfg :=
+  match s.splitOn ":" with
+  | [m, fd, mf, r] => do
+    let m ← num 1000 m
+    let fd ← optBool fd
+    let fd ← fd
+    let mf ← num 1000 mf
+    let r ← num 8 r
+    pure ⟨dyn, m, fd, mf, r, ups⟩
+  | _ => none
+
+def showFinal : Final → String
   | .sent i => toString i
-  | .refused => "503"
+  | .status c => toString c
   | .crashed => "panic"
   | .starved => "starved"
+
+def showTried : Option Nat → String
+  | some i => toString i ++ "!"
+  | none => "-"
+
+def showEvOut : EvOut → String
+  | .req tried fin => "/".intercalate (tried.map showTried ++ [showFinal fin])
   | .done => "ok"
   | .idle => "-"
 
-def proxyAnswer (p : Policy) (m : Nat) (ids : List Nat) (evs : List Ev) (ds : List Nat) : String :=
+def evStarved : EvOut → Bool
+  | .req _ .starved => true
+  | _ => false
+
+def showNatList (l : List Nat) : String := if l.isEmpty then "-" else ",".intercalate (l.map toString)
+
+def proxyAnswer (p : Policy) (c : PCfg) (evs : List Ev) (ds : List Nat) : String :=
   match provision p with
   | none => "err:provision"
   | some p =>
-    if (prun m ids (pinit p ids ds) evs).1.any (· == .starved) then "starved"
-    else ",".intercalate ((prun m ids (pinit p ids ds) evs).1.map showEvOut)
-      ++ " c=" ++ counterOf (prun m ids (pinit p ids ds) evs).2.pol
-      ++ " n=" ++ (if ids.isEmpty then "-" else ",".intercalate ((prun m ids (pinit p ids ds) evs).2.loads.map toString))
+    if (prun c (pinit p c ds) evs).1.any evStarved then "starved"
+    else ",".intercalate ((prun c (pinit p c ds) evs).1.map showEvOut)
+      ++ " c=" ++ counterOf (prun c (pinit p c ds) evs).2.pol
+      ++ " n=" ++ showNatList (prun c (pinit p c ds) evs).2.loads
+      ++ " f=" ++ showNatList (prun c (pinit p c ds) evs).2.fails
 
 def handle : List String → String
-  | ["prx", mode, pol, m, ids, script, rnd] =>
-    match parseLeaf pol, num 1000 m, parseNums small ids, (script.splitOn ",").mapM parseEv, parseRand rnd with
-    | some p, some m, some ids, some evs, some ds =>
-      if (mode == "dyn" || mode == "sta") && proxyPolicy p && ids.length ≤ 16 && decide ids.Nodup
-          && evs.length ≤ 32 && scriptOK evs 0 then proxyAnswer p m ids evs ds
-      else "bad-op"
-    | _, _, _, _, _ => "bad-op"
+  | ["prx", mode, pol, cfg, ups, script, rnd] =>
+    match parseProxyPolicy pol, parsePUps ups, (script.splitOn ",").mapM parseEv, parseRand rnd with
+    | some p, some ups, some evs, some ds =>
+      match parsePCfg (mode == "dyn") cfg ups with
+      | some c =>
+        if (mode == "dyn" || mode == "sta") && ups.length ≤ 16 && decide (ups.map (·.id)).Nodup
+            && evs.length ≤ 32 && scriptOK evs 0 then proxyAnswer p c evs ds
+        else "bad-op"
+      | none => "bad-op"
+    | _, _, _, _ => "bad-op"
   | ["sel", pol, pool, n, v, rnd] =>
     match parsePolicy pol, parsePool pool, num 64 n, num small v, parseRand rnd with
     | some p, some pl, some n, some _, some ds => if n = 0 then "bad-op" else answer p pl n ds
